@@ -2190,8 +2190,10 @@ func opcodeCheckMultiSig(op *ParsedOpcode, t *thread) error {
 			continue
 		}
 		script = script.removeOpcodeByData(sigInfo.signature)
-		script = script.removeOpcode(bscript.OpCODESEPARATOR)
 	}
+	// The original algorithm additionally hashes the script without its code
+	// separators; fork id signatures of the same check keep them.
+	legacyScript := script.removeOpcode(bscript.OpCODESEPARATOR)
 
 	success := true
 	numPubKeys++
@@ -2269,7 +2271,11 @@ func opcodeCheckMultiSig(op *ParsedOpcode, t *thread) error {
 			continue
 		}
 
-		up, err := t.scriptParser.Unparse(script)
+		sigScript := legacyScript
+		if t.hasFlag(scriptflag.EnableSighashForkID) && shf.Has(sighash.ForkID) {
+			sigScript = script
+		}
+		up, err := t.scriptParser.Unparse(sigScript)
 		if err != nil {
 			t.dstack.PushBool(false)
 			return nil //nolint:nilerr // only need a false push in this case
